@@ -93,6 +93,8 @@ func init() {
 						o.Verdict, o.Detail = Proved, fmt.Sprintf("permitted reader (%d reads): %s", len(reads[fn]), why)
 					} else if via, ok := c.servesPermitted(fn, func(n string) bool { _, p := sp.permitted[n]; return p }); ok {
 						o.Verdict, o.Detail = Proved, fmt.Sprintf("private helper of the permitted reader %s (%d reads)", via, len(reads[fn]))
+					} else if c.hostObserver(fn) {
+						o.Verdict, o.Detail = Proved, "a read-only accessor for the host: it makes no call, stores nothing, and no function of the interpreter calls it — nothing the evaluator decides depends on this read"
 					} else {
 						o.Verdict, o.Detail = Violated, "raw read of a limit field outside its accessor: the `zero means default` convention is bypassed here (a limit of 0 silently becomes `no limit`); permitted: "+strings.Join(sortedKeys(sp.permitted), ", ")
 					}
@@ -749,4 +751,54 @@ func (c *Ctx) ctxErrWrapper(h *types.Func) int {
 		return -1
 	}
 	return idx
+}
+
+
+// hostObserver: fname is a declared function that only LOOKS — its body makes no call (builtins and
+// conversions apart), assigns to no field or element, and no function of the interpreter kernel calls
+// it or takes it as a value: an accessor added for embedders (`Runtime.MaxStepsLimit()`,
+// `Runtime.StepsRemaining()`), which cannot give a limit another meaning inside the evaluator.
+func (c *Ctx) hostObserver(fname string) bool { return c.hostObserverDepth(fname, 0) }
+
+func (c *Ctx) hostObserverDepth(fname string, depth int) bool {
+	if depth > 2 {
+		return false
+	}
+	fn, fd, pkg := c.LookupFunc(fname)
+	if fn == nil || fd == nil || fd.Body == nil || !callFree(c, fn) {
+		return false
+	}
+	info := pkg.TypesInfo
+	stores := false
+	ast.Inspect(fd.Body, func(n ast.Node) bool {
+		switch x := n.(type) {
+		case *ast.AssignStmt:
+			for _, l := range x.Lhs {
+				switch ast.Unparen(l).(type) {
+				case *ast.SelectorExpr, *ast.IndexExpr, *ast.StarExpr:
+					stores = true
+				}
+			}
+		case *ast.IncDecStmt:
+			if _, isId := ast.Unparen(x.X).(*ast.Ident); !isId {
+				stores = true
+			}
+		}
+		return true
+	})
+	_ = info
+	if stores {
+		return false
+	}
+	sites, refs := c.CallsTo(isKernel, fn)
+	if len(refs) != 0 {
+		return false
+	}
+	for _, st := range sites {
+		// an observer may serve another observer (StepsRemaining reads the limit through MaxStepsLimit)
+		if st.Lit != nil || !c.hostObserverDepth(st.Unit.Name(), depth+1) {
+			return false
+		}
+	}
+	return true
 }
